@@ -255,10 +255,17 @@ class Program:
                     else:
                         with open(os.path.join(dp, fn), encoding="utf-8") as fh:
                             src = fh.read()
-                    if "AssertionError" not in src:
+                    has_helper = "AssertionError" in src
+                    has_deco = "wrapper" in src or "wraps(" in src
+                    if not (has_helper or has_deco):
                         continue
                     try:
-                        GLOBAL_HELPERS.update(_require_helpers(ast.parse(src)))
+                        t_ = ast.parse(src)
+                        if has_helper:
+                            GLOBAL_HELPERS.update(_require_helpers(t_))
+                        if has_deco:
+                            from .normalise import _guard_decorators, GLOBAL_DECORATORS
+                            GLOBAL_DECORATORS.update(_guard_decorators(t_))
                     except SyntaxError:
                         pass
 
